@@ -244,10 +244,16 @@ class Run:
             # nothing but the library refers to it afterwards (its reports still arrive here through the closure)
             listener = self._listener(reg)
             self.stats["listeners_registered_inline"] = self.stats.get("listeners_registered_inline", 0) + 1
-        if f is None:
-            self.prot.discovery.watch_all_services(listener)
-        else:
-            self.prot.discovery.watch_service(net.client_filter(C, f), listener)
+        # an application that issues its watches again (in its reconnect routine, say) while nothing is known yet: registering is
+        # idempotent, one listener under one filter is one registration
+        again = 2 if pos >= 0 and not any(a["kind"] == "msg" for _t, _r, a in self.script[:pos]) else 1
+        if again == 2:
+            self.stats["registrations_issued_twice_while_nothing_was_known"] = self.stats.get("registrations_issued_twice_while_nothing_was_known", 0) + 1
+        for _ in range(again):
+            if f is None:
+                self.prot.discovery.watch_all_services(listener)
+            else:
+                self.prot.discovery.watch_service(net.client_filter(C, f), listener)
         if inline:
             del listener
             gc.collect(0)
@@ -568,6 +574,7 @@ def judge(ctx, init, builder, seqkey, seed, replay, core):
         ctx.count(k, run.stats[k])
     ctx.count("reentrant_unwatch_calls", run.stats.get("reentrant_unwatch_calls", 0))
     ctx.count("listeners_registered_inline", run.stats.get("listeners_registered_inline", 0))
+    ctx.count("registrations_issued_twice_while_nothing_was_known", run.stats.get("registrations_issued_twice_while_nothing_was_known", 0))
     for t, rank, a in builder.script:
         pass
     for mech, detail in run.violations[:2]:
